@@ -11,7 +11,6 @@ import (
 	"github.com/buildbuildio/pebbles/planner"
 	"github.com/buildbuildio/pebbles/requests"
 	"github.com/buildbuildio/pebbles/verifhook"
-	"github.com/gobwas/ws/wsutil"
 )
 
 type subscriptionEntry struct {
@@ -180,7 +179,7 @@ func (se *subscriptionEntry) Listen(conn net.Conn) {
 				return
 			}
 			verifhook.At("se.Listen.beforeWrite")
-			if err := wsutil.WriteServerText(conn, bResp); err != nil {
+			if err := writeServerText(conn, bResp); err != nil {
 				return
 			}
 			verifhook.At("se.Listen.afterWrite")
